@@ -15,6 +15,68 @@
 //! collision resistance: do not use these types where an adversary controls
 //! the hashed keys and hash-flooding (O(n²) degradation) is a concern.
 
+/// Verification hooks (cargo feature `verif`, default off).
+///
+/// With the feature off every item here is an empty `#[inline(always)]`
+/// function, so instrumented call sites compile to nothing. With the feature
+/// on, hooks are **thread-local** and absent by default: a thread that never
+/// installed one behaves exactly as without the feature.
+pub mod verif {
+    #[cfg(feature = "verif")]
+    mod imp {
+        use std::cell::{Cell, RefCell};
+        use std::rc::Rc;
+
+        thread_local! {
+            static CLOCK: Cell<Option<u64>> = const { Cell::new(None) };
+            static POINT: RefCell<Option<Rc<dyn Fn(&'static str)>>> = const { RefCell::new(None) };
+        }
+
+        /// Installs (or removes) a virtual millisecond clock on this thread.
+        pub fn set_clock(start_ms: Option<u64>) {
+            CLOCK.with(|c| c.set(start_ms));
+        }
+
+        /// Virtual time, strictly increasing by one per call, if installed.
+        pub fn now_ms() -> Option<u64> {
+            CLOCK.with(|c| {
+                let v = c.get()?;
+                c.set(Some(v + 1));
+                Some(v)
+            })
+        }
+
+        /// Installs (or removes) the yield-point callback of this thread.
+        pub fn set_point_hook(hook: Option<Rc<dyn Fn(&'static str)>>) {
+            POINT.with(|p| *p.borrow_mut() = hook);
+        }
+
+        /// Called by `verif_point!`; no-op on threads without a hook.
+        pub fn point(tag: &'static str) {
+            let hook = POINT.with(|p| p.borrow().clone());
+            if let Some(h) = hook {
+                h(tag);
+            }
+        }
+    }
+    #[cfg(feature = "verif")]
+    pub use imp::*;
+
+    /// Called by `verif_point!`; compiled to nothing without the feature.
+    #[cfg(not(feature = "verif"))]
+    #[inline(always)]
+    pub fn point(_tag: &'static str) {}
+}
+
+/// Marks a place where a verification scheduler may preempt the calling
+/// thread. Expands to an empty inline call unless the `verif` feature is on.
+#[macro_export]
+macro_rules! verif_point {
+    ($tag:expr) => {
+        $crate::verif::point($tag)
+    };
+}
+
 use core::ops::Deref;
 use rustc_hash::{FxBuildHasher, FxHashSet};
 use serde::{
